@@ -332,19 +332,31 @@ def writeProposalsAnswer (c : Cfg) (proposals : List Proposal) : Proc (List Prop
     else askEach ps []
   Proc.write (sb "FS " ++ ps.map (·.answer) ++ [13]) (pure ps)
 
-/-- `lzhuf.NewB2Reader` + `io.Copy` + `Close()` as in `Proposal.data()`; `none` = error -/
-def lzReadAll (d : Lzhuf.Reader) (acc : Bytes) : Nat → Option Bytes
-  | 0 => none
+/-- `lzhuf.NewB2Reader` + `io.Copy` + `Close()` as in `Proposal.data()`. `.error true` = the error is
+io.EOF / io.ErrUnexpectedEOF (which `Exchange` reports as ErrConnLost, because the error is wrapped with
+%w and classified with errors.Is), `.error false` = ErrChecksum. -/
+def lzReadAll (d : Lzhuf.Reader) (acc : Bytes) : Nat → Except Bool Bytes
+  | 0 => .error false
   | fuel + 1 =>
     match d.read 32768 with
     | (d, bs, none) => lzReadAll d (acc ++ bs) fuel
-    | (d, bs, some .eof) => if d.close.isNone then some (acc ++ bs) else none
-    | (_, _, some _) => none
+    | (d, bs, some .eof) =>
+      match d.close with
+      | none => .ok (acc ++ bs)
+      | some .checksum => .error false
+      | some _ => .error true
+    | (_, _, some .checksum) => .error false
+    | (_, _, some .unexpectedEOF) => .error true
+
+def lzDecodeE (cdata : Bytes) : Except Bool Bytes :=
+  match Lzhuf.Reader.new true cdata with
+  | .error _ => .error true
+  | .ok d => lzReadAll d [] (d.size.toNat + 3)
 
 def lzDecode (cdata : Bytes) : Option Bytes :=
-  match Lzhuf.Reader.new true cdata with
+  match lzDecodeE cdata with
+  | .ok d => some d
   | .error _ => none
-  | .ok d => lzReadAll d [] (d.size.toNat + 3)
 
 def readN : Nat → Bytes → Proc (Option Bytes)
   | 0, acc => .ret (some acc.reverse)
@@ -413,7 +425,10 @@ def fetchAll (fuel : Nat) : List Proposal → SState → Proc (SState × Option 
           if p.code = 68 then Proc.call (.parseMessage (sb "gzip:" ++ cdata)) fun _ => .ret none
           else .ret (lzDecode cdata)
         match ← decoded with
-        | none => return (st, some (.proto "unable-to-decompress"))
+        | none =>
+          -- a decoder error that wraps io.EOF / io.ErrUnexpectedEOF is reported as a lost connection
+          let eofClass : Bool := p.code != 68 && (match lzDecodeE cdata with | .error true => true | _ => false)
+          return (st, some (if eofClass then .eof else .proto "unable-to-decompress"))
         | some data =>
           Proc.call (.parseMessage data) fun r =>
             match r with
